@@ -4,15 +4,19 @@ import json, os
 V = os.path.dirname(os.path.dirname(os.path.abspath(__file__)))
 IDS = ["C%02d" % i for i in range(1, 21)]
 
-CLAIMED = {
- "C09": dict(
-  category="proof",
-  text="Lean theorems over the model of RMCMessage.encode/decode: encode equals the independent reference framing and decode inverts it for every protocol id < 2^16, call id < 2^32, method id, error code with bit 31 and every body; accepted implies exact length prefix; every truncation, extension and error response with trailing bytes is rejected. The model is tied to the code by a differential run of the real RMCMessage against the compiled model on ~26k (quick) / ~600k (thorough, whole protocol axis) generated encode/decode operations, plus the round-trip oracle on the real code.",
-  design_ref="§5 C09",
-  note="Lean kernel + propext/Classical.choice/Quot.sound; the hand-written model is tied to rmc.py only by the (sampled, protocol axis exhaustive in thorough) correspondence; struct/anynet stream semantics modelled.",
-  technique="Lean 4 proof of round trip/strictness on a hand-written model + differential correspondence with RMCMessage"),
-}
+def load_claimed():
+    d = os.path.join(V, "manifest.d")
+    res = {}
+    for f in sorted(os.listdir(d)):
+        if f.endswith(".json"):
+            e = json.load(open(os.path.join(d, f)))
+            res[e["property_id"]] = e
+    return res
+
+CLAIMED = load_claimed()
 NOT_YET = "machinery for this property is not built yet in this revision (planned in DESIGN.md §5); not claimed until its check exists"
+
+NA = {}
 
 def main():
     checks = []
@@ -31,6 +35,8 @@ def main():
                 "level_note": c["note"],
                 "technique": c["technique"],
             })
+        elif i in NA:
+            na.append({"property_id": i, "reason": NA[i]})
         else:
             na.append({"property_id": i, "reason": NOT_YET})
     m = {
